@@ -12,6 +12,7 @@ import (
 	"regexp"
 	"sort"
 	"strings"
+	"time"
 
 	"github.com/antonmedv/expr"
 	"github.com/antonmedv/expr/ast"
@@ -112,7 +113,15 @@ type coreRun struct {
 
 func runProgram(p *vm.Program, env interface{}) coreRun {
 	callLog = nil
-	out, err := vm.Run(p, env)
+	var out interface{}
+	var err error
+	guarded(30*time.Second, func() interface{} {
+		src := ""
+		if p != nil && p.Source != nil {
+			src = p.Source.Content()
+		}
+		return map[string]interface{}{"src": src, "what": "vm.Run of the compiled program"}
+	}, func() { out, err = vm.Run(p, env) })
 	return coreRun{out, err, callLog}
 }
 
@@ -217,7 +226,7 @@ func runC01() {
 	rng := rand.New(rand.NewSource(*seed))
 	nRandom, nEnvs, exLevel, exSample := 700, 5, 1, 700
 	if *tier == "thorough" {
-		nRandom, nEnvs, exLevel, exSample = 6000, 8, 2, 1 << 30
+		nRandom, nEnvs, exLevel, exSample = 6000, 8, 2, 1<<30
 	}
 	envs := standardEnvs(rng, nEnvs)
 	var srcs []string
@@ -230,6 +239,7 @@ func runC01() {
 		rep.Exhaustive = false
 	}
 	srcs = append(srcs, ex...)
+	srcs = append(srcs, nestedSources()...)
 	g := &egen{rng: rng, wrong: 15, hist: rep.Histogram}
 	for i := 0; i < nRandom; i++ {
 		t := []gtype{tBool, tInt, tNum, tStr, tArrInt, tArrAny, tAny}[rng.Intn(7)]
